@@ -17,7 +17,7 @@ Definition hr_expected (n : node_type) : string :=
   match find (fun p => nt_eqb (fst p) n) hr_aliases with Some p => snd p | None => default_handler n end.
 
 Theorem hrprinter_dispatch_matches_source : forall n, hrprinter_dispatch n = hr_expected n.
-Proof. apply node_type_case. vm_compute. repeat constructor. Qed.
+Proof. apply by_table. vm_compute. reflexivity. Qed.
 
 (* the separator the source passes to walk_nary is the one the model writes (also through the aliases:
    BV_AND is printed by walk_and, hence with " & ") *)
